@@ -29,5 +29,7 @@ try:
             print("    ", w[:200])
 finally:
     subprocess.run(["git", "-C", "/repo", "checkout", "--", "."])
+    # patches may add new source files: remove them too (only untracked files under src/)
+    subprocess.run(["git", "-C", "/repo", "clean", "-fdq", "src"])
     # restore the evidence of the unchanged tree is the caller's business (re-run the checks)
 print("RESULT", " ".join("%s=%d" % kv for kv in res.items()))
